@@ -85,6 +85,10 @@ def frag(m, keep, b):
     except Exception:
         return None, None
     fm = MoleculeCurator.add_hydrogens_to_radicals(fm)
+    # closing the cut at a stereo double bond (C=N with / \ marks) leaves the new hydrogen as an ATOM of the graph; such a fragment is
+    # not "the molecule cut at one bond" any more (its atom list differs, string round trips drop the atom): the cut is skipped
+    if sum(1 for a in fm.GetAtoms() if a.GetAtomicNum() == 1) > sum(1 for i in keep if m.GetAtomWithIdx(i).GetAtomicNum() == 1):
+        return None, None
     if isinstance(b, (list, tuple)):
         return fm, [idx[x] for x in b]
     return fm, idx[b]
